@@ -19,6 +19,7 @@ import (
 	"strings"
 
 	"verif/internal/keys"
+	"verif/internal/pki"
 	"verif/internal/rfc6962"
 	"verif/internal/world"
 )
@@ -49,6 +50,9 @@ type Case struct {
 	NoDER     bool
 	DecoyIdx  int             // the decoy key: same kind as the log key, another pool entry
 	Siblings  []Sibling       // clients built in the same process before the client under test
+	Fill      int             // get-entries: pad the reply to about this many entries with copies of a small well-formed entry
+	FillPos   int             // where the generated entries sit among the padding: 0 = at the end, 1 = at the start, 2 = in the middle
+	Rekey     bool            // submissions: the final issuer certificate of the chain is replaced by one with the same subject and another key
 	Chain     world.ChainSpec // the submission
 	Other     world.ChainSpec // "another certificate"
 	Entries   []EntrySpec     // get-entries / get-entry-and-proof payload
@@ -294,8 +298,10 @@ func (b *built) delivered() []byte {
 
 // scene is everything a case resolves to before the call is made.
 type scene struct {
-	replayDS []byte // when set, the response carries these DigitallySigned bytes (an earlier answer's) instead of a fresh signature
-	lastDS   []byte // the DigitallySigned bytes of the answer built last
+	twin     *pki.Cert // Rekey: the certificate standing in for the final issuer (same subject, other key)
+	twinAt   int       // its position in the submitted chain
+	replayDS []byte    // when set, the response carries these DigitallySigned bytes (an earlier answer's) instead of a fresh signature
+	lastDS   []byte    // the DigitallySigned bytes of the answer built last
 	c        Case
 	key      *keys.Key
 	logID    [32]byte
@@ -316,6 +322,24 @@ func newScene(c Case) *scene {
 		l, x := buildEntry(e)
 		s.entries = append(s.entries, [2][]byte{l, x})
 	}
+	if c.Fill > 0 && (c.Method == "GetEntries" || c.Method == "GetRawEntries") {
+		l, x := buildEntry(EntrySpec{Base: "world", Spec: world.ChainSpec{ID: 4242, LeafKind: "p256"}, Timestamp: 1500000000000})
+		pad := make([][2][]byte, c.Fill)
+		for i := range pad {
+			pad[i] = [2][]byte{l, x}
+		}
+		switch c.FillPos {
+		case 0:
+			s.entries = append(pad, s.entries...)
+		case 1:
+			s.entries = append(s.entries, pad...)
+		default:
+			s.entries = append(append(append([][2][]byte{}, pad[:c.Fill/2]...), s.entries...), pad[c.Fill/2:]...)
+		}
+	}
+	if c.Rekey && s.chain != nil {
+		s.twin, s.twinAt = rekeyedIssuer(s.chain)
+	}
 	if c.Method == "GetAcceptedRoots" {
 		for _, r := range world.Roots() {
 			s.roots = append(s.roots, r.DER)
@@ -324,10 +348,49 @@ func newScene(c Case) *scene {
 	return s
 }
 
+// rekeyedIssuer issues a twin of the chain's final issuer certificate: same subject, validity and
+// extensions, another key of the same kind (a re-keyed CA). It returns the twin and its chain position.
+func rekeyedIssuer(b *world.Built) (*pki.Cert, int) {
+	at := 1
+	if b.PreIssuer != nil {
+		at = 2
+	}
+	if at >= len(b.Path) {
+		return nil, 0
+	}
+	orig := b.Path[at]
+	t := orig.Tmpl
+	for i := 1; i < 64; i++ {
+		if k := keys.Pick(orig.Key.Kind, i+7); k.Name != orig.Key.Name {
+			t.Key = k
+			break
+		}
+	}
+	return pki.Issue(orig.Parent, t, orig.Label+"/rekeyed"), at
+}
+
+// submission is the DER chain the caller hands in.
+func (s *scene) submission() [][]byte {
+	out := append([][]byte{}, s.chain.Submit...)
+	if s.twin != nil {
+		for len(out) <= s.twinAt {
+			out = append(out, s.chain.Full[len(out)]) // the issuer has to be present to be replaced
+		}
+		out[s.twinAt] = s.twin.DER
+	}
+	return out
+}
+
 // entryFor is the RFC 6962 entry an honest log signs for the submission through this method.
 func (s *scene) entryFor(method string, b *world.Built) rfc6962.Entry {
 	if method == "AddPreChain" {
-		return b.Entry() // generator keeps AddPreChain submissions to precertificates
+		e := b.Entry() // generator keeps AddPreChain submissions to precertificates
+		if s.twin != nil && b == s.chain {
+			// RFC 6962 s3.2: issuer_key_hash is the hash of the key of the certificate that was handed in as
+			// the final issuer; the TBS (names, extensions) is the same for both certificates of that name.
+			e.IssuerKeyHash = sha256.Sum256(s.twin.Key.SPKI)
+		}
+		return e
 	}
 	return rfc6962.Entry{Type: rfc6962.X509Entry, Cert: b.Leaf.DER}
 }
